@@ -112,6 +112,12 @@ Inductive case :=
      answered by the byte path?, rcode, EDE *)
 | CaseWireGate (cd kind_q denial_impossible : bool) (n : name) (idx_rung idx_query : list (name * N))
                (by_wire : bool) (rcode : N) (ede : option N)
+  (* failover behind the cache: primary outcome (0 shared SERVFAIL, 1 marked attempt-limit, 2 marked
+     probe-limit, 3 client context cancelled, 4 useful, 5 REFUSED), RD, fallback behaviours (0 useful,
+     1 SERVFAIL, 2 REFUSED); packets per fallback, client rcode / EDE, FailureLen; the same query once
+     more: primary calls, fallback packets, rcode, EDE *)
+| CaseFailover (p : N) (rd : bool) (fbs : list N) (asked : list Z) (rc1 : N) (ede1 : option N) (flen : Z)
+               (calls2 asked2 : Z) (rc2 : N) (ede2 : option N)
   (* lab: a zone whose authority addresses behave as listed (0,1 healthy; 2,3,4 failure
      rcode; 5 silent); zone failures published / cleared by Resolver.Resolve, its rcode (999 = error) *)
 | CaseLab (servers : list N) (records clears : Z) (rcode : N)
@@ -272,6 +278,17 @@ Definition pipe_cfg (size init max : Z) : cfg :=
   | None => mk_cfg cfg_default_min_ttl cfg_default_max_ttl
   end.
 
+Definition fo_primary_of (p : N) : fo_primary :=
+  if (p =? 0)%N then FoShared else if (p =? 1)%N then FoMarkedAttempt else if (p =? 2)%N then FoMarkedProbe
+  else if (p =? 3)%N then FoCtxErr else if (p =? 4)%N then FoUseful else FoOtherFailure.
+Definition fo_fallback_of (b : N) : fo_fallback := if (b =? 0)%N then FbUseful else FbFailure.
+Fixpoint list_Z_eqb (a b : list Z) : bool :=
+  match a, b with
+  | [], [] => true
+  | x :: a', y :: b' => (x =? y) && list_Z_eqb a' b'
+  | _, _ => false
+  end.
+
 Definition check_case (x : case) : bool :=
   match x with
   | CaseBackoff init max obs =>
@@ -315,6 +332,21 @@ Definition check_case (x : case) : bool :=
       let w := if cd || negb kq then [] else miss_witness idx_rung n in
       Bool.eqb by_wire (wire_gate cd kq di (witness_holds idx_query n w)) &&
       (rcode =? rcode_servfail)%N && opt_N_eqb ede (Some ede_cached_error)
+  | CaseFailover p rd fbs asked rc1 ede1 flen calls2 asked2 rc2 ede2 =>
+      let '(am, d) := failover_outcome rd (fo_primary_of p) (map fo_fallback_of fbs) in
+      let sum := fold_right Z.add 0 in
+      list_Z_eqb asked am &&
+      match d with
+      | DUseful _ =>
+          (* a recovery: nothing recorded, the answer is cached *)
+          negb (rc1 =? rcode_servfail)%N && (flen =? 0) && (calls2 =? 0) && (asked2 =? 0) && (rc2 =? rc1)%N
+      | DFail r =>
+          negb (rc1 =? 0)%N && negb (opt_N_eqb ede1 (Some ede_cached_error)) &&
+          if cacheable_failure r
+          then (flen =? 1) && (calls2 =? 0) && (asked2 =? 0) && (rc2 =? rcode_servfail)%N && opt_N_eqb ede2 (Some ede_cached_error)
+          else (flen =? 0) && (calls2 =? 1) && (asked2 =? sum am) && negb (opt_N_eqb ede2 (Some ede_cached_error))
+      | DTruncated => false
+      end
   | CaseLab servers records clears rcode =>
       let bs := map (fun b => if (b <=? 1)%N then AHealthy else if (b =? 5)%N then ASilent else AFailureRcode) servers in
       if zone_failure_published bs then (1 <=? records) && negb (rcode =? 0)%N
@@ -614,6 +646,17 @@ Definition spec_case (x : case) : bool :=
   | CaseWireGate cd kq di n idx_rung idx_query by_wire rcode ede =>
       (* whichever path composes it, the client sees the cached failure *)
       (rcode =? rcode_servfail)%N && opt_N_eqb ede (Some ede_cached_error)
+  | CaseFailover p rd fbs asked rc1 ede1 flen calls2 asked2 rc2 ede2 =>
+      let local := (p =? 1)%N || (p =? 2)%N || (p =? 3)%N in
+      let served_from_failure_cache := opt_N_eqb ede2 (Some ede_cached_error) || ((calls2 =? 0) && (rc2 =? rcode_servfail)%N) in
+      (* a request-local failure never becomes shared state *)
+      (if local then (flen =? 0) && negb served_from_failure_cache else true) &&
+      (* a cached failure is answered without upstream traffic of any kind *)
+      (if served_from_failure_cache then (calls2 =? 0) && (asked2 =? 0) && (rc2 =? rcode_servfail)%N else true) &&
+      (* a shed or abandoned request starts no fallback traffic *)
+      (if (p =? 2)%N || (p =? 3)%N then forallb (Z.eqb 0) asked else true) &&
+      (* a useful answer (primary's or a fallback's) leaves no failure behind *)
+      (if (rc1 =? 0)%N then (flen =? 0) else true)
   | CaseLab servers records clears rcode =>
       (* a zone failure only for a zone every one of whose servers failed to give a usable response *)
       if (0 <? records) then forallb (fun b => (2 <=? b)%N) servers else true
